@@ -22,6 +22,7 @@ RULE = ('Four families. fault: contractive BlockSpec with an injected fault sche
         'duplicate country/sector codes, "__" in local names or sector codes, market without or with ambiguous suppliers, '
         'cross-currency flow/supplier without external sector. Non-trivial: fault at p>=2 actually failing; contraction '
         'with q>=0.5 and >=4 variables; every invalid case. Distinct: sha1 of the spec.')
+RULE = RULE + (' Input shapes added after the seeded-change rounds (DESIGN.md section 8): ' + 'a sweep-counting function that stops a solve 10 sweeps past its cap; per-case watchdog; duplicates given as equal-but-not-identical strings.')
 ASSUMPTIONS = [
     'acceptable failure classes: ValueError family (ConvergenceError, LogicError) and ArithmeticError family',
     'sweeps are counted by a user function registered through the public AddFunction API and by the public step trace; '
